@@ -3,6 +3,7 @@ fn main() {
     ctx.self_test("allocator", vp_core::alloc::self_test());
     match ctx.id.as_str() {
         "C06" => vp_buf::c06::run(&mut ctx),
+        "C10" => vp_buf::c10::run(&mut ctx),
         other => {
             eprintln!("vp_buf: unknown property {}", other);
             std::process::exit(2);
